@@ -314,6 +314,9 @@ pub fn exec(s: &mut CrdtSession, toks: &[&str], enc: TextEncoding) -> Vec<String
             let d = s.replicas.get_mut(toks[1]).unwrap();
             if !closed(d) { return vec!["err open-tx".into()]; }
             let ps = if toks.len() > 4 { match d.diff_obj(&obj, &h1, &h2, rec) { Ok(p) => p, Err(_) => return vec!["err objid".into()] } } else { d.diff(&h1, &h2) };
+            // non-recursive: the patches of the object's own level, without their path (what the Lean
+            // transcription of `MapDiff` predicts)
+            let ps = if rec { ps } else { rebase(ps.into_iter().filter(|p| p.obj == obj).collect(), &obj) };
             let text = show_patches(&ps);
             let mut res = vec![format!("patches {}", text)];
             // the canonical text is lossless for the applier: re-parsing gives patches that print the same
@@ -573,6 +576,15 @@ fn run_cmd(cmd: &str, sess: &mut Session, out: &mut Out, ctx: &mut Ctx) {
             }
         }
         "incr" => { if has(sess, t[1]) { follow(sess, out, t[1], ctx); } }
+        "diff0" => {
+            if !has(sess, t[1]) { return; }
+            let d = sess.crdt.replicas.get(t[1]).unwrap();
+            let (Some(s1), Some(s2)) = (head_set(t[2], d, ctx), head_set(t[3], d, ctx)) else { return };
+            let d = sess.crdt.replicas.get_mut(t[1]).unwrap();
+            let own: Vec<String> = d.get_changes(&[]).iter().map(|c| hex::encode(c.hash().0)).collect();
+            for hs in [&s1, &s2] { if hs != "-" && !hs.split(',').all(|h| own.iter().any(|o| o == h)) { return; } }
+            exec_line(sess, &format!("crdt.patch.diff {} {} {} {} 0", t[1], s1, s2, t[4]), out);
+        }
         "diff" => {
             if !has(sess, t[1]) { return; }
             let d = sess.crdt.replicas.get(t[1]).unwrap();
@@ -851,6 +863,11 @@ pub fn generate(r: &mut Rng, opts: &BTreeMap<String, String>, sess: &mut Session
             out.count("diff_obj");
             run_cmd(&format!("diff r0 {} {} {}", h1, h2, show_exid(&o)), sess, out, &mut ctx);
         } else { out.count("diff_root"); run_cmd(&format!("diff r0 {} {}", h1, h2), sess, out, &mut ctx); }
+        // the own level of one map object (root or nested), non-recursive: compared with the Lean `mapDiff`
+        let maps: Vec<ObjId> = std::iter::once(ROOT).chain(objs.iter().filter(|(_, t)| *t == ObjType::Map).map(|(o, _)| o.clone())).collect();
+        let m = maps[r.below(maps.len() as u64) as usize].clone();
+        out.count("diff_map_level");
+        run_cmd(&format!("diff0 r0 {} {} {}", h1, h2, show_exid(&m)), sess, out, &mut ctx);
     }
     let _ = parse_enc;
 }
